@@ -285,7 +285,7 @@ func (g *Gen) Make(kind string) Op {
 		o.BadName = g.R.Chance(1, 8)
 	case KSetMeta:
 		o.CasClass = g.casClass([]int{2, 6, 2, 1})
-		o.NewCasClass = rng.Pick(g.R, []string{"above", "above", "below", "far"})
+		o.NewCasClass = rng.Pick(g.R, []string{"above", "above", "below", "far", "between"})
 		o.Exp = rng.Pick(g.R, []uint32{0, farExp, farExp + 9})
 		if g.R.Bool() {
 			o.Body, o.JSON = g.jsonBody(), true
@@ -297,7 +297,7 @@ func (g *Gen) Make(kind string) Op {
 		}
 	case KDelMeta:
 		o.CasClass = g.casClass([]int{2, 6, 2, 1})
-		o.NewCasClass = rng.Pick(g.R, []string{"above", "above", "below", "far"})
+		o.NewCasClass = rng.Pick(g.R, []string{"above", "above", "below", "far", "between"})
 		o.Exp = rng.Pick(g.R, []uint32{0, farExp})
 		if g.R.Chance(2, 3) {
 			o.XRaw = g.xblob()
